@@ -58,13 +58,13 @@ Verdict(o) ==
                   ELSE IF Canon(o.back) # Args(t, c) THEN <<"MISMATCH", "args-differ">>
                   ELSE <<"OK", "">>)
             ELSE IF Norm(o.script) # Norm(Script(t, c)) THEN
-                 <<"MISMATCH", IF o.r = "field_write" THEN "readback-differs"
+                 <<"MISMATCH", IF o.r \in {"field_write", "nested_write"} THEN "readback-differs"
                                ELSE "script-differs">>
             ELSE IF o.back_k = "rejected" THEN <<"SOFT", "soft-back">>
             ELSE IF o.back_k = "na" THEN <<"OK", "">>
             ELSE IF ~o.typeok THEN <<"MISMATCH", "type-differs">>
             ELSE IF Canon(o.back) # Canon(GoVal(t, c)) THEN
-                 <<"MISMATCH", IF o.r = "field_write" THEN "go-field-differs"
+                 <<"MISMATCH", IF o.r \in {"field_write", "nested_write"} THEN "go-field-differs"
                                ELSE "roundtrip-differs">>
             ELSE <<"OK", "">>
        [] OTHER -> <<"HARNESS", "unknown">>
